@@ -4,6 +4,7 @@ package rootmulti
 import (
 	"bytes"
 
+	"github.com/pokt-network/pocket-core/store/types"
 	v "github.com/pokt-network/pocket-core/verifrt"
 	"github.com/pokt-network/pocket-core/verifrt/modelkv"
 )
@@ -17,12 +18,19 @@ import (
 func VerifC06() {
 	dbX, dbY := modelkv.NewUnorderedDB(), modelkv.NewUnorderedDB()
 	x, y := mwMustOpen(dbX), mwMustOpen(dbY)
+	// a third node that has no transient store mounted at all: the app hash is a function of the
+	// persistent substores only, so it must agree as well
+	z := NewStore(modelkv.NewUnorderedDB(), false, 0)
+	z.MountStoreWithDB(mwA, types.StoreTypeIAVL, nil)
+	z.MountStoreWithDB(mwB, types.StoreTypeIAVL, nil)
+	v.Assert(z.LoadLatestVersion() == nil, "reference-node-opens")
 	ref := mwNewRef()
 	v.Assert(x.LastCommitID().Version == 0, "fresh-store-at-version-0")
 	for blk := int64(1); blk <= 2; blk++ {
 		ops := mwBlock(1) // (two writes per block did not finish within the thorough budget: same bound in both tiers)
 		mwApply(x, ops)
 		mwApply(y, ops)
+		mwApply(z, ops)
 		ref.apply(ops)
 		tk, tv := v.Bytes(1), v.Bytes(1)
 		_ = y.GetKVStore(mwT).Set(tk, tv) // only node y uses the transient store
@@ -31,6 +39,8 @@ func VerifC06() {
 		idX, idY := x.Commit(), y.Commit()
 		v.Assert(idX.Version == blk && idY.Version == blk, "version-advances-by-exactly-one")
 		v.Assert(bytes.Equal(idX.Hash, idY.Hash), "app-hash-independent-of-transient-store")
+		idZ := z.Commit()
+		v.Assert(idZ.Version == blk && bytes.Equal(idZ.Hash, idX.Hash), "app-hash-is-that-of-the-persistent-substores-alone")
 		gone, _ := y.GetKVStore(mwT).Get(tk)
 		probe, _ := y.GetKVStore(mwT).Get(v.Bytes(1)) // any other key as well
 		v.Assert(gone == nil && probe == nil, "transient-store-empty-after-commit")
